@@ -1192,6 +1192,35 @@ impl World {
                 let other = block_hash_for(0xFFFF_0000 + self.op_index as u32);
                 self.call("brc20_call", self.simple_call_params(ts, &other, txs, &tag))
             }
+            BadOp::ZeroIdxOtherHash => {
+                if !mid {
+                    return Resp::Ok(Value::Null);
+                }
+                let other = block_hash_for(0xFFFE_0000 + self.op_index as u32);
+                self.call("brc20_call", self.simple_call_params(ts, &other, 0, &tag))
+            }
+            BadOp::ZeroIdxExistingHash => {
+                let Some(existing) = self.chain.last().map(|b| b.hash.clone()) else {
+                    return Resp::Ok(Value::Null);
+                };
+                if !mid {
+                    return Resp::Ok(Value::Null);
+                }
+                self.call("brc20_call", self.simple_call_params(ts, &existing, 0, &tag))
+            }
+            BadOp::OtherHashAndTimestamp => {
+                if !mid {
+                    return Resp::Ok(Value::Null);
+                }
+                let other = block_hash_for(0xFFFD_0000 + self.op_index as u32);
+                self.call("brc20_call", self.simple_call_params(ts + 1, &other, txs, &tag))
+            }
+            BadOp::WrongIdxOtherTimestamp => {
+                if !mid {
+                    return Resp::Ok(Value::Null);
+                }
+                self.call("brc20_call", self.simple_call_params(ts + 1, &hash, txs + 1, &tag))
+            }
             BadOp::FinaliseWrongCount(d) => {
                 let c = (txs as i64 + if *d == 0 { 1 } else { *d }).max(0) as u64;
                 let c = if c == txs { txs + 1 } else { c };
